@@ -394,6 +394,11 @@ func (m *c19Model) stepPlain(op string) c19Exp {
 		}
 		r, w := utf8.DecodeRune(src[m.cur:])
 		if r == utf8.RuneError {
+			if !get {
+				// a peek at something that is not a character (invalid UTF-8, or U+FFFD, which this engine does not deliver):
+				// if it raises, nothing is consumed; what a get does there is not asserted
+				return c19Exp{Kind: "wrongtype"}
+			}
 			return c19Skip("invalid_utf8")
 		}
 		if fail >= 0 && m.cur+w > fail {
